@@ -27,6 +27,7 @@ MOD_FUNCS = {
     "C02": ["ac_generate_arpc_1", "ac_generate_arpc_2", "tools_xor", "tools_cbc", "mac_mac3", "mac_pad2"],
     "C03": ["kd_derive_icc_mk_a", "kd_derive_icc_mk_b", "tools_xor", "tools_ecb", "tools_adjust"],
     "C04": ["kd_derive_common_sk", "kd_derive_visa_sm_sk", "tools_xor", "tools_ecb", "tools_adjust"],
+    "C05": ["kd_tree_sk", "kd_tree_walk", "kd_tree_derive", "tools_xor", "tools_ecb", "tools_adjust"],
     "C06": ["sm_generate_command_mac", "mac_mac3", "mac_pad2"],
     "C07": ["sm_encrypt_command_data", "mac_pad2", "tools_ecb", "tools_cbc"],
     "C08": ["ac_generate_ac", "ac_generate_arpc_1", "ac_generate_arpc_2", "kd_derive_icc_mk_a", "kd_derive_icc_mk_b",
@@ -35,8 +36,8 @@ MOD_FUNCS = {
     "C11": ["cvv_generate_cvc3", "mac_mac3", "tools_ecb"],
     "C12": ["sm_format_vis", "sm_format_iso2", "tools_xor"],
     "C13": ["tools_adjust", "tools_odd_parity", "kd_derive_icc_mk_a", "kd_derive_icc_mk_b", "kd_derive_common_sk",
-            "kd_derive_visa_sm_sk"],
-    "C15": ["ac_generate_ac", "ac_generate_arpc_1", "ac_generate_arpc_2", "kd_derive_common_sk", "kd_derive_visa_sm_sk",
+            "kd_derive_visa_sm_sk", "kd_tree_sk"],
+    "C15": ["kd_tree_sk", "ac_generate_ac", "ac_generate_arpc_1", "ac_generate_arpc_2", "kd_derive_common_sk", "kd_derive_visa_sm_sk",
             "sm_generate_command_mac", "sm_encrypt_command_data", "sm_format_vis", "sm_format_iso2", "cvv_generate_cvc3",
             "mac_mac3"],
     "C16": ["kd_derive_icc_mk_a", "kd_derive_icc_mk_b", "sm_format_vis", "sm_format_iso2"],
